@@ -325,6 +325,17 @@ func styles() []styleSpec {
 
 // ---- the check -----------------------------------------------------------------------------
 
+// elderSibling is written in front of the shape, inside the innermost group (set by the family
+// "elder siblings" only; workers are single-threaded).
+var elderSibling string
+
+// elderSiblings draw nothing themselves: what they set must end with them, and what the
+// enclosing groups set must still hold after them.
+var elderSiblings = []string{
+	`<g stroke-miterlimit="9" stroke-linejoin="bevel" stroke-width="7" fill="lime" transform="scale(3)"></g>`,
+	`<g><g stroke="blue" stroke-linecap="square" stroke-dasharray="1 2"></g></g><defs></defs>`,
+}
+
 func document(sz sizeSpec, g1, g2 xf, sh shapeSpec, st styleSpec) string {
 	var sb strings.Builder
 	sb.WriteString(`<svg xmlns="http://www.w3.org/2000/svg" ` + sz.attrs + `>`)
@@ -349,6 +360,7 @@ func document(sz sizeSpec, g1, g2 xf, sh shapeSpec, st styleSpec) string {
 		sb.WriteString(`<g` + st.gAttrs + `>`)
 		open++
 	}
+	sb.WriteString(elderSibling) // (family "elder siblings": elements that are opened and closed before the shape)
 	sb.WriteString(fmt.Sprintf(sh.xml, st.shapeAttrs))
 	for ; open > 0; open-- {
 		sb.WriteString(`</g>`)
@@ -590,6 +602,22 @@ func families(tier string) []fw.Family {
 				return document(sizes[g[0]], xforms[g[1]], xforms[g[2]], shapes[g[3]], sts[g[4]])
 			}})
 	}
+	radE := []int{len(elderSiblings), len(styXf), len(shapes), len(sts)}
+	withSibling := func(k int, f func()) {
+		elderSibling = elderSiblings[k]
+		defer func() { elderSibling = "" }()
+		f()
+	}
+	fs = append(fs, fw.Family{Name: "elder siblings: 2 closed groups in front of the shape x 2 group transforms x shape x style", N: oracle.Prod(radE...),
+		Check: func(i int64, r *fw.R) {
+			g := oracle.Digits(i, radE...)
+			withSibling(g[0], func() { check(r, sizes[3], xforms[styXf[g[1]]], xforms[0], shapes[g[2]], sts[g[3]]) })
+		},
+		Desc: func(i int64) (d string) {
+			g := oracle.Digits(i, radE...)
+			withSibling(g[0], func() { d = document(sizes[3], xforms[styXf[g[1]]], xforms[0], shapes[g[2]], sts[g[3]]) })
+			return d
+		}})
 	fs = append(fs, selectorFamily(), cascadeFamily())
 	return append(fs, roundTripFamilies(tier)...)
 }
